@@ -963,9 +963,15 @@ package ion
 //@ ensures[C12,C19] old(w.err) != nil ==> err == old(w.err) && w.err == old(w.err)
 //@ ensures[C12,C19] err != nil ==> w.err != nil
 
+// Finish re-arms a writer that builds its own symbol table: the batch buffer it emitted is
+// replaced by a new one, so that a later batch is again preceded by its table (C12).
 //@ func (*binaryWriter).Finish
+//@ split returns
 //@ modifies *
+//@ counts (*bufstack).push
 //@ ensures[C12,C19] old(w.err) != nil ==> err == old(w.err) && w.err == old(w.err)
+//@ ensures[C12] err == nil && old(w.err) == nil && old(len(w.bufs.arr)) > 0 && old(w.bufs.arr[len(w.bufs.arr)-1]) != nil ==> vcCalls("(*bufstack).push") == 1
+//@ ensures[C12] old(len(w.bufs.arr)) == 0 ==> vcCalls("(*bufstack).push") == 0
 
 //@ func (*textWriter).WriteNull
 //@ modifies *
